@@ -1687,3 +1687,399 @@ example : nvconv ≠ [] ∧ (∀ m ∈ nvconv, ∀ im ∈ m.images, imgOk ⟨tru
   ⟨by decide, fun _ _ _ _ => Or.inl rfl⟩
 
 end OllamaVerif.C19
+
+/-! ## Round 7: the legacy template on the join-repaired loop in closed form (pieces); each image once in the prompt bytes -/
+namespace OllamaVerif.Prompt
+open OllamaVerif.C19
+
+/-- a slot followed by a blank, unless it renders empty (`{{if .X}}{{.X}} {{end}}`) -/
+def spaceP (c : List Piece) : List Piece := if (renderPieces c).isEmpty then [] else c ++ [Piece.lit [32]]
+def bareP (c : List Piece) : List Piece := if (renderPieces c).isEmpty then [] else c
+
+def turnP (s p r : List Piece) : List Piece := spaceP s ++ spaceP p ++ spaceP r
+def turnCutP (s p r : List Piece) : List Piece := spaceP s ++ spaceP p ++ bareP r
+
+theorem tLegacy_exec (s p r : Bytes) :
+    execList (legacyRoot s p r) tLegacy none =
+      .ok ((if s.isEmpty then [] else s ++ [32]) ++ ((if p.isEmpty then [] else p ++ [32]) ++ (if r.isEmpty then [] else r ++ [32]))) := by
+  cases hs : s.isEmpty <;> cases hp : p.isEmpty <;> cases hr : r.isEmpty <;>
+    simp [tLegacy, execList, execNode, eval, evalField, Root.get, legacyRoot, truthy, printVal, XOut.append, hs, hp, hr]
+
+theorem tLegacyCut_exec (s p r : Bytes) :
+    execList (legacyRoot s p r) tLegacyCut none =
+      .ok ((if s.isEmpty then [] else s ++ [32]) ++ ((if p.isEmpty then [] else p ++ [32]) ++ (if r.isEmpty then [] else r))) := by
+  cases hs : s.isEmpty <;> cases hp : p.isEmpty <;> cases hr : r.isEmpty <;>
+    simp [tLegacyCut, execList, execNode, eval, evalField, Root.get, legacyRoot, truthy, printVal, XOut.append, hs, hp, hr]
+
+theorem render_spaceP (c : List Piece) :
+    renderPieces (spaceP c) = if (renderPieces c).isEmpty then [] else renderPieces c ++ [32] := by
+  unfold spaceP
+  split
+  · rfl
+  · simp [renderPieces_append, renderPieces, renderPiece]
+
+theorem render_bareP (c : List Piece) :
+    renderPieces (bareP c) = if (renderPieces c).isEmpty then [] else renderPieces c := by
+  unfold bareP
+  split <;> rfl
+
+theorem render_turnP (s p r : List Piece) :
+    execList (legacyRoot (renderPieces s) (renderPieces p) (renderPieces r)) tLegacy none = .ok (renderPieces (turnP s p r)) := by
+  rw [tLegacy_exec]
+  simp only [turnP, renderPieces_append, render_spaceP, List.append_assoc]
+
+theorem render_turnCutP (s p r : List Piece) :
+    execList (legacyRoot (renderPieces s) (renderPieces p) (renderPieces r)) tLegacyCut none = .ok (renderPieces (turnCutP s p r)) := by
+  rw [tLegacyCut_exec]
+  simp only [turnCutP, renderPieces_append, render_spaceP, render_bareP, List.append_assoc]
+
+structure LegacyP where
+  sys : List Piece
+  prompt : List Piece
+  resp : List Piece
+  out : List Piece
+
+def absL (st : LegacyP) : Legacy :=
+  ⟨renderPieces st.sys, renderPieces st.prompt, renderPieces st.resp, .ok (renderPieces st.out)⟩
+
+def joinSlotP (a c : List Piece) : List Piece :=
+  if (renderPieces a).isEmpty then c else a ++ [Piece.lit sep2] ++ c
+
+theorem render_joinSlotP (a c : List Piece) :
+    renderPieces (joinSlotP a c) = joinSlot (renderPieces a) (renderPieces c) := by
+  unfold joinSlotP joinSlot
+  split
+  · rfl
+  · simp [renderPieces_append, renderPieces, renderPiece]
+
+def flushP (st : LegacyP) : LegacyP := ⟨[], [], [], st.out ++ turnP st.sys st.prompt st.resp⟩
+
+theorem abs_flushP (st : LegacyP) : absL (flushP st) = legacyFlush tLegacy (absL st) := by
+  simp only [absL, flushP, legacyFlush, render_turnP, XOut.append, renderPieces_append]
+  rfl
+
+def stepP (st : LegacyP) (m : PMsg) : LegacyP :=
+  match m.1 with
+  | .system =>
+    let st' := if (!(renderPieces st.prompt).isEmpty || !(renderPieces st.resp).isEmpty) then flushP st else st
+    { st' with sys := joinSlotP st'.sys m.2 }
+  | .user =>
+    let st' := if (!(renderPieces st.resp).isEmpty) then flushP st else st
+    { st' with prompt := joinSlotP st'.prompt m.2 }
+  | .assistant => { st with resp := joinSlotP st.resp m.2 }
+  | _ => st
+
+theorem abs_stepP (st : LegacyP) (m : PMsg) : absL (stepP st m) = legacyStep 2 tLegacy (absL st) (rp m) := by
+  obtain ⟨r, c⟩ := m
+  cases r with
+  | system =>
+    show absL (stepP st (Role.system, c)) = legacyStep 2 tLegacy (absL st) (Role.system, renderPieces c)
+    rw [legacyStep_join_system]
+    simp only [stepP]
+    by_cases hc : (!(renderPieces st.prompt).isEmpty || !(renderPieces st.resp).isEmpty) = true
+    · have hc' : (!(absL st).prompt.isEmpty || !(absL st).resp.isEmpty) = true := hc
+      rw [if_pos hc, if_pos hc', ← abs_flushP]
+      simp [absL, setSys, render_joinSlotP]
+    · have hc' : ¬ ((!(absL st).prompt.isEmpty || !(absL st).resp.isEmpty) = true) := hc
+      rw [if_neg hc, if_neg hc']
+      simp [absL, setSys, render_joinSlotP]
+  | user =>
+    show absL (stepP st (Role.user, c)) = legacyStep 2 tLegacy (absL st) (Role.user, renderPieces c)
+    rw [legacyStep_join_user]
+    simp only [stepP]
+    by_cases hc : (!(renderPieces st.resp).isEmpty) = true
+    · have hc' : (!(absL st).resp.isEmpty) = true := hc
+      rw [if_pos hc, if_pos hc', ← abs_flushP]
+      simp [absL, setPrompt, render_joinSlotP]
+    · have hc' : ¬ ((!(absL st).resp.isEmpty) = true) := hc
+      rw [if_neg hc, if_neg hc']
+      simp [absL, setPrompt, render_joinSlotP]
+  | assistant =>
+    show absL (stepP st (Role.assistant, c)) = legacyStep 2 tLegacy (absL st) (Role.assistant, renderPieces c)
+    rw [legacyStep_join_assistant]
+    simp [stepP, absL, setResp, render_joinSlotP]
+  | tool => rfl
+  | other => rfl
+
+theorem abs_foldP : ∀ (l : List PMsg) (st : LegacyP),
+    absL (l.foldl stepP st) = (l.map rp).foldl (legacyStep 2 tLegacy) (absL st) := by
+  intro l
+  induction l with
+  | nil => intro st; rfl
+  | cons a l ih =>
+    intro st
+    simp only [List.foldl_cons, List.map_cons]
+    rw [ih, abs_stepP]
+
+def finalP (l : List PMsg) : List Piece :=
+  let st := (collateP l).foldl stepP ⟨[], [], [], []⟩
+  st.out ++ turnCutP st.sys st.prompt st.resp
+
+/-- **the legacy template of prompt_test.go on the join-repaired loop, in closed form at the level of pieces** -/
+theorem legacy_exact (efix : Bool) (l : List PMsg) (tools : ToolsV) :
+    execute ⟨2, efix⟩ tLegacy (l.map rp) tools = .ok (renderPieces (finalP l)) := by
+  have hmsg : nodesMention Fld.messages tLegacy = false := by decide
+  have hfold := abs_foldP (collateP l) ⟨[], [], [], []⟩
+  have h0 : absL ⟨[], [], [], []⟩ = ⟨[], [], [], .ok []⟩ := rfl
+  rw [h0, ← collateMsgs_map_rp] at hfold
+  simp only [execute, collate, hmsg, Bool.false_eq_true, if_false, ← hfold, tLegacy_cut efix]
+  simp only [absL, render_turnCutP, XOut.append, finalP, renderPieces_append]
+
+end OllamaVerif.Prompt
+
+namespace OllamaVerif.Prompt
+open OllamaVerif.C19
+
+theorem tags_spaceP (c : List Piece) : tagsOf (spaceP c) = tagsOf c := by
+  unfold spaceP
+  split
+  · rename_i h
+    have : renderPieces c = [] := by cases hc : renderPieces c <;> simp_all
+    rw [tagsOf_of_render_nil c this]; rfl
+  · simp [tagsOf_append, tagsOf]
+
+theorem tags_bareP (c : List Piece) : tagsOf (bareP c) = tagsOf c := by
+  unfold bareP
+  split
+  · rename_i h
+    have : renderPieces c = [] := by cases hc : renderPieces c <;> simp_all
+    rw [tagsOf_of_render_nil c this]; rfl
+  · rfl
+
+theorem count_joinSlotP (k : Nat) (a c : List Piece) :
+    (tagsOf (joinSlotP a c)).count k = (tagsOf a).count k + (tagsOf c).count k := by
+  unfold joinSlotP
+  split
+  · rename_i h
+    have : renderPieces a = [] := by cases hc : renderPieces a <;> simp_all
+    rw [tagsOf_of_render_nil a this]; simp
+  · simp [tagsOf_append, tagsOf, List.count_append]
+
+def cnt (k : Nat) (st : LegacyP) : Nat :=
+  (tagsOf st.out).count k + (tagsOf st.sys).count k + (tagsOf st.prompt).count k + (tagsOf st.resp).count k
+
+theorem tagsOf_nil : tagsOf ([] : List Piece) = [] := rfl
+
+theorem cnt_flushP (k : Nat) (st : LegacyP) : cnt k (flushP st) = cnt k st := by
+  simp only [cnt, flushP, turnP, tagsOf_append, tags_spaceP, List.count_append, tagsOf_nil, List.count_nil]
+  omega
+
+theorem cnt_stepP (k : Nat) (st : LegacyP) (m : PMsg) :
+    cnt k (stepP st m) = cnt k st + (if legacyRole m.1 then (tagsOf m.2).count k else 0) := by
+  obtain ⟨r, c⟩ := m
+  cases r with
+  | system =>
+    simp only [stepP, legacyRole, if_true]
+    split
+    · have := cnt_flushP k st
+      simp only [cnt, count_joinSlotP] at this ⊢
+      omega
+    · simp only [cnt, count_joinSlotP]; omega
+  | user =>
+    simp only [stepP, legacyRole, if_true]
+    split
+    · have := cnt_flushP k st
+      simp only [cnt, count_joinSlotP] at this ⊢
+      omega
+    · simp only [cnt, count_joinSlotP]; omega
+  | assistant =>
+    simp only [stepP, legacyRole, if_true, cnt, count_joinSlotP]; omega
+  | tool => simp [stepP, legacyRole]
+  | other => simp [stepP, legacyRole]
+
+theorem cnt_foldP (k : Nat) : ∀ (l : List PMsg) (st : LegacyP),
+    cnt k (l.foldl stepP st) = cnt k st + (l.flatMap (fun m => if legacyRole m.1 then tagsOf m.2 else [])).count k := by
+  intro l
+  induction l with
+  | nil => intro st; simp
+  | cons a l ih =>
+    intro st
+    simp only [List.foldl_cons, List.flatMap_cons, List.count_append]
+    rw [ih, cnt_stepP]
+    by_cases h : legacyRole a.1 = true <;> simp [h] <;> omega
+
+theorem collateP_tags_keep (keep : Role → Bool) : ∀ l : List PMsg,
+    (collateP l).flatMap (fun m => if keep m.1 then tagsOf m.2 else []) =
+      l.flatMap (fun m => if keep m.1 then tagsOf m.2 else []) := by
+  intro l
+  induction l with
+  | nil => rfl
+  | cons a l ih =>
+    obtain ⟨r, c⟩ := a
+    simp only [collateP, List.flatMap_cons]
+    rw [← ih]
+    cases hc : collateP l with
+    | nil => simp
+    | cons b tl =>
+      obtain ⟨r', c'⟩ := b
+      by_cases hr : r = r'
+      · subst hr
+        by_cases hs : keep r = true
+        · simp only [hs, if_true, List.flatMap_cons, tagsOf_append]
+          simp [tagsOf]
+        · simp [hs]
+      · simp [hr]
+
+theorem count_finalP (k : Nat) (l : List PMsg) :
+    (tagsOf (finalP l)).count k = (l.flatMap (fun m => if legacyRole m.1 then tagsOf m.2 else [])).count k := by
+  have := cnt_foldP k (collateP l) ⟨[], [], [], []⟩
+  rw [collateP_tags_keep legacyRole l] at this
+  simp only [finalP, turnCutP, tagsOf_append, tags_spaceP, tags_bareP, List.count_append]
+  simp only [cnt, tagsOf_nil, List.count_nil] at this
+  omega
+
+theorem flatMap_congr' {α β : Type} (f g : α → List β) : ∀ l : List α, (∀ x ∈ l, f x = g x) → l.flatMap f = l.flatMap g := by
+  intro l
+  induction l with
+  | nil => intro _; rfl
+  | cons a l ih =>
+    intro h
+    simp only [List.flatMap_cons, h a (by simp), ih (fun x hx => h x (by simp [hx]))]
+
+/-! cleanliness of the buffers -/
+
+def cleanSt (st : LegacyP) : Prop :=
+  cleanPieces st.out = true ∧ cleanPieces st.sys = true ∧ cleanPieces st.prompt = true ∧ cleanPieces st.resp = true
+
+theorem clean_spaceP (c : List Piece) (h : cleanPieces c = true) : cleanPieces (spaceP c) = true := by
+  unfold spaceP
+  split
+  · rfl
+  · simp only [cleanPieces_append, h, Bool.true_and]; decide
+
+theorem clean_bareP (c : List Piece) (h : cleanPieces c = true) : cleanPieces (bareP c) = true := by
+  unfold bareP
+  split
+  · rfl
+  · exact h
+
+theorem clean_joinSlotP (a c : List Piece) (ha : cleanPieces a = true) (hc : cleanPieces c = true) :
+    cleanPieces (joinSlotP a c) = true := by
+  unfold joinSlotP
+  split
+  · exact hc
+  · simp only [cleanPieces_append, ha, hc, Bool.and_true, Bool.true_and]; decide
+
+theorem clean_flushP (st : LegacyP) (h : cleanSt st) : cleanSt (flushP st) := by
+  obtain ⟨a, b, c, d⟩ := h
+  refine ⟨?_, rfl, rfl, rfl⟩
+  simp only [flushP, turnP, cleanPieces_append, a, clean_spaceP _ b, clean_spaceP _ c, clean_spaceP _ d, Bool.and_true]
+
+theorem clean_stepP (st : LegacyP) (m : PMsg) (h : cleanSt st) (hm : cleanPieces m.2 = true) : cleanSt (stepP st m) := by
+  obtain ⟨r, c⟩ := m
+  cases r with
+  | system =>
+    simp only [stepP]
+    split
+    · obtain ⟨a, b, c', d⟩ := clean_flushP st h
+      exact ⟨a, clean_joinSlotP _ _ b hm, c', d⟩
+    · obtain ⟨a, b, c', d⟩ := h
+      exact ⟨a, clean_joinSlotP _ _ b hm, c', d⟩
+  | user =>
+    simp only [stepP]
+    split
+    · obtain ⟨a, b, c', d⟩ := clean_flushP st h
+      exact ⟨a, b, clean_joinSlotP _ _ c' hm, d⟩
+    · obtain ⟨a, b, c', d⟩ := h
+      exact ⟨a, b, clean_joinSlotP _ _ c' hm, d⟩
+  | assistant =>
+    obtain ⟨a, b, c', d⟩ := h
+    exact ⟨a, b, c', clean_joinSlotP _ _ d hm⟩
+  | tool => exact h
+  | other => exact h
+
+theorem clean_foldP : ∀ (l : List PMsg) (st : LegacyP), cleanSt st → (∀ m ∈ l, cleanPieces m.2 = true) →
+    cleanSt (l.foldl stepP st) := by
+  intro l
+  induction l with
+  | nil => intro st h _; exact h
+  | cons a l ih =>
+    intro st h hl
+    simp only [List.foldl_cons]
+    exact ih _ (clean_stepP st a h (hl a (by simp))) (fun m hm => hl m (by simp [hm]))
+
+theorem clean_finalP (l : List PMsg) (h : ∀ m ∈ l, cleanPieces m.2 = true) : cleanPieces (finalP l) = true := by
+  obtain ⟨a, b, c, d⟩ := clean_foldP (collateP l) ⟨[], [], [], []⟩ ⟨rfl, rfl, rfl, rfl⟩ (collateP_clean l h)
+  simp only [finalP, turnCutP, cleanPieces_append, a, clean_spaceP _ b, clean_spaceP _ c, clean_bareP _ d, Bool.and_true]
+
+end OllamaVerif.Prompt
+
+namespace OllamaVerif.C19
+open OllamaVerif OllamaVerif.Prompt
+variable {cfg : Cfg} {cost : Nat → Nat} {bad : Nat → Bool} {msgs : List Msg}
+  {q n : Nat} {sys ret : List Msg} {imgs : List ImgOut}
+
+/-- **Each image exactly once in the PROMPT BYTES, legacy template on the join-repaired loop** (partial: guard
+    `cleanPieces`, finding F5 otherwise; every role is one the legacy loop renders — system, user, assistant): every
+    index `k < #images` is matched exactly once by the runner's regexp, no other number is, every match resolves. -/
+theorem prompt_tags_legacy_partial {efix : Bool} {mode : Nat} {tf : Option Nat} {p : Bytes} {tools : ToolsV}
+    (h : chatPromptT cfg ⟨2, efix⟩ tLegacy mode msgs tf tools = .ok q n sys ret imgs p)
+    (hv : cfg.fixed = true)
+    (hroles : ∀ m ∈ msgs, legacyRole m.role = true)
+    (hclean : ∀ m ∈ msgs, cleanPieces m.content = true)
+    (hno : ∀ m ∈ msgs, ∀ k, countTag k m.content = 0) :
+    (∀ k, (scanTags p 0).count k = if k < imgs.length then 1 else 0) ∧
+    ∃ l, resolveTags imgs (scanTags p 0) = some l ∧ l.length = (scanTags p 0).length := by
+  obtain ⟨hg, hexec⟩ := templ_ok_exact h
+  have hsys := (system_kept_fixed hg hv).1
+  have hsysmem : ∀ m ∈ sys, m ∈ msgs := by
+    intro m hm
+    rw [hsys] at hm
+    exact List.mem_of_mem_take (List.mem_filter.mp hm).1
+  have hretsame : ∀ m' ∈ ret, ∃ m ∈ msgs, SameMsg m m' := by
+    intro m' hm'
+    obtain ⟨m, hm, hs⟩ := AllSame.mem_right (retained_is_suffix_in_order hg) m' hm'
+    exact ⟨m, List.mem_of_mem_drop hm, hs⟩
+  let L : List PMsg := (sys ++ ret).map (fun m : Msg => ((m.role, m.content) : PMsg))
+  have hall : ∀ m ∈ L, cleanPieces m.2 = true ∧ legacyRole m.1 = true := by
+    intro m hm
+    obtain ⟨x, hx, rfl⟩ := List.mem_map.mp hm
+    rcases List.mem_append.mp hx with h1 | h1
+    · exact ⟨hclean x (hsysmem x h1), hroles x (hsysmem x h1)⟩
+    · obtain ⟨y, hy, hs⟩ := hretsame x h1
+      refine ⟨?_, ?_⟩
+      · show cleanPieces x.content = true
+        rw [cleanPieces_strip, hs.text, ← cleanPieces_strip]; exact hclean y hy
+      · show legacyRole x.role = true
+        rw [hs.role]; exact hroles y hy
+  have hex := legacy_exact efix L tools
+  have emap : L.map rp = (sys ++ ret).map toRMsg := by
+    simp only [L]; rw [List.map_map]; rfl
+  rw [emap, hexec] at hex
+  injection hex with hex
+  subst hex
+  have hscan : scanTags (renderPieces (finalP L)) 0 = tagsOf (finalP L) :=
+    scanTags_renderPieces _ (clean_finalP L (fun m hm => (hall m hm).1))
+  obtain ⟨_, hid, hcount⟩ := images_once_indexed hg hno
+  have hcnt : ∀ k, (scanTags (renderPieces (finalP L)) 0).count k = if k < imgs.length then 1 else 0 := by
+    intro k
+    rw [hscan, count_finalP k L]
+    have e1 : L.flatMap (fun m => if legacyRole m.1 then tagsOf m.2 else []) = L.flatMap (fun m => tagsOf m.2) := by
+      apply flatMap_congr'
+      intro m hm
+      simp [(hall m hm).2]
+    have e2 : L.flatMap (fun m => tagsOf m.2) = (sys ++ ret).flatMap (fun m => tagsOf m.content) := by
+      simp only [L]; rw [List.flatMap_map]
+    rw [e1, e2, ← flatMap_tags (fun m : Msg => m.content), count_tagsOf, List.flatMap_append, countTag_append,
+      countTag_flatMap_zero k sys (fun m hm => hno m (hsysmem m hm) k), hcount k]
+    simp
+  refine ⟨hcnt, resolveTags_all imgs _ (fun k hk => ?_)⟩
+  have hpos : 0 < (scanTags (renderPieces (finalP L)) 0).count k := List.count_pos_iff.mpr hk
+  rw [hcnt k] at hpos
+  have hlt : k < imgs.length := by
+    by_cases hlt : k < imgs.length
+    · exact hlt
+    · simp [hlt] at hpos
+  exact ⟨_, resolveTag_of_IdsOk imgs hid k hlt⟩
+
+end OllamaVerif.C19
+
+namespace OllamaVerif.C19
+open OllamaVerif OllamaVerif.Prompt
+
+/-- non-vacuity of `prompt_tags_legacy_partial`: `nvconv` (roles system / user / assistant) through the legacy template -/
+example :
+    scanOf (chatPromptT ⟨true, false, 0, 1000⟩ ⟨2, true⟩ tLegacy 1 nvconv) = [0, 2, 1] ∧
+    (nvconv.all fun m => legacyRole m.role) = true := by decide
+
+end OllamaVerif.C19
